@@ -29,6 +29,20 @@ claim("C16",
       TRUST + "; two recorded findings (quoted mixed-case column read as source, quoted mixed-case schema) are reported as KNOWN-FINDING",
       "DESIGN.md section 4 (C16)")
 
+claim("C15",
+      "Simulation proof by one inductive step on the real _SQLLineageConfigLoader object: from an ARBITRARY abstract state "
+      "(acting thread + one arbitrary other thread, symbolic ids, symbolic override values, symbolic environment) one arbitrary "
+      "operation (override call with any ordered sub-list of keys, with/without an unknown key; enter; exit; exit by exception; "
+      "read; direct assignment) must raise iff the specification rejects it, leave the object in the state related to the "
+      "specification's post-state and make every thread's later reads equal the specification's. One step covers histories of "
+      "any length, every operation-level interleaving and thread-id reuse. Cross-checked by bounded sequences from the initial "
+      "state (3 ops quick / 4 thorough, 2 threads, id reuse) and coercion obligations per key. Counterexamples are replayed with "
+      "real threads on the unmodified module-level SQLLineageConfig.",
+      TRUST + "; single dict/set operations atomic under the GIL; ids of live threads distinct; behaviour of a thread between its "
+      "override call and scope entry other than entering is unspecified. Two defects found by this check were repaired in /repo "
+      "(fix: commit, see known_findings.json).",
+      "DESIGN.md section 4 (C15)")
+
 ALL = ["C%02d" % i for i in range(1, 19)]
 
 
